@@ -22,7 +22,9 @@ PROBES = ['rendered_before_with_other_parameters', 'guard_refused_element',
           'previous_batches_evaluated', 'unbounded_rendered', 'fault_fired', 'window_past_end',
           'lookahead_probe_reached', 'else_rendered', 'prev_lookback_overpull',
           'lazyseq_len_called', 'start_beyond_stream', 'prev_flag', 'next_flag',
-          'no_push_item', 'body_names_the_sequence_again']
+          'no_push_item', 'body_names_the_sequence_again',
+          'iterator_that_rewinds_after_its_end',
+          'elements_lacking_the_attribute']
 RULE = ('seeded sampling of (start,end in -1..16; size -1..7; orphan 0..4; '
         'overlap 0..3; literal or via variable; previous/next flag; item '
         'kind; name or expr source; no_push_item; unbatched loops whose body '
@@ -100,6 +102,11 @@ class Obj:
         self.v = v
 
 
+class Bare:
+    """an element without the attribute the others have"""
+    w = 1
+
+
 def make_item(kind):
     def mk(i):
         tok = 'e%d' % i
@@ -109,6 +116,9 @@ def make_item(kind):
             return Obj(tok)
         if kind == 'map':
             return {'v': tok}
+        if kind == 'sparse':
+            # mixed content: only every 40th element has the attribute
+            return Obj(tok) if i % 40 == 0 else Bare()
         return ('k%d' % i, Obj(tok))    # pair
     return mk
 
@@ -123,6 +133,25 @@ class Iter:
     def __next__(self):
         r = self.c.produce(self.mk)
         if r is StopIteration:
+            raise StopIteration
+        return r
+
+
+class RewindIter(Iter):
+    """an iterator that misbehaves after its end: once it has signalled
+    StopIteration, the next call starts again at the first element (a cursor
+    that re-executes its query).  Whoever stops asking at the first
+    StopIteration never notices."""
+    ended = False
+
+    def __next__(self):
+        if self.ended:
+            self.ended = False
+            self.c.restart()
+            self.c.rewinds = getattr(self.c, 'rewinds', 0) + 1
+        r = self.c.produce(self.mk)
+        if r is StopIteration:
+            self.ended = True
             raise StopIteration
         return r
 
@@ -215,8 +244,14 @@ def gen_case(seed, tier):
         f = r.random()
         case['flag'] = 'previous' if f < 0.12 else 'next' if f < 0.24 else None
     kind = r.choice(['gen', 'genfunc', 'iter', 'iterable', 'lazyseq',
-                     'sized'])
-    unbounded = batched and r.random() < 0.3 and kind != 'sized'
+                     'sized', 'rewind'])
+    unbounded = batched and r.random() < 0.3 and kind not in ('sized',
+                                                              'rewind')
+    if batched and r.random() < 0.06:
+        case['items'] = 'sparse'
+        if r.random() < 0.8:
+            case['extras'] = sorted(set(case['extras']) | {
+                r.choice(['last', 'last', 'first'])})
     # a reverse_expr that evaluates false asks for no reversal
     case['revexpr'] = r.choice([None] * 6 + [0, '', None])
     case['has_revexpr'] = r.random() < 0.15
@@ -290,7 +325,7 @@ def source_of(case):
                 '{<dtml-var sequence-step-start-index>}')
     else:
         item = {'str': '<dtml-var sequence-item>', 'obj': '<dtml-var v>',
-                'map': '<dtml-var v>',
+                'map': '<dtml-var v>', 'sparse': '<dtml-var v missing="-">',
                 'pair': '<dtml-var v><dtml-var sequence-key>'}[kind]
         body = '[<dtml-var sequence-index>=%s]' % item
         ex = []
@@ -376,6 +411,8 @@ def run_case(case):
             return gen(c, mk)
     elif kind == 'iter':
         seq = Iter(c, mk)
+    elif kind == 'rewind':
+        seq = RewindIter(c, mk)
     elif kind == 'iterable':
         seq = IterableOnly(c, mk)
     elif kind == 'sized':
@@ -463,6 +500,12 @@ def run_case(case):
         probe('body_names_the_sequence_again')
     if c.passes > 1:
         probe('source_asked_for_an_iterator_again')
+    if kind == 'rewind':
+        probe('iterator_that_rewinds_after_its_end')
+    if getattr(c, 'rewinds', 0):
+        faults['stream.rewound_after_eof'] = c.rewinds
+    if case['items'] == 'sparse':
+        probe('elements_lacking_the_attribute')
     if case.get('has_revexpr'):
         probe('false_reverse_expr')
     if ';' in out and re.search(r'b\d+-\d+;', out):
@@ -476,6 +519,8 @@ def run_case(case):
     # in-order, at-most-once: the item shown with index i is element i
     for i, tok in disp:
         want = 'e%d' % i + ('k%d' % i if case['items'] == 'pair' else '')
+        if case['items'] == 'sparse' and i % 40:
+            want = '-'
         if tok != want:
             viol('order', 'order:index-item-mismatch', index=i, shown=tok)
             break
@@ -565,7 +610,8 @@ def shrink(case):
             c[k] = None
             yield c
     for k, v in (('flag', None), ('prefix', None), ('else', False),
-                 ('items', 'str'), ('src', 'name')):
+                 ('items', 'str' if case['items'] != 'sparse' else 'sparse'),
+                 ('src', 'name')):
         if case[k] != v:
             c = copy.deepcopy(case)
             c[k] = v
